@@ -721,5 +721,5 @@ def subchecks(tier):
         Sub("coalescent_integrated", body_coalint, strategy=coalint_cases, quick=260, thorough=6000,
             pretags=_pre(lambda c: "ConstantCoalescentIntegratedModel")),
         Sub("suffstats", body_suff, strategy=suff_cases, quick=700, thorough=16000, pretags=_pre(lambda c: CLS[c["kind"]])),
-        Sub("block_update", body_block, strategy=block_cases, quick=500, thorough=10000, pretags=_pre(lambda c: CLS[c["kind"]])),
+        Sub("block_update", body_block, strategy=block_cases, quick=400, thorough=10000, pretags=_pre(lambda c: CLS[c["kind"]])),
     ]
